@@ -505,7 +505,8 @@ def oracle_confirm(h):
                 and not (rg and rg[1] < rg[0]))
         if ok and not cond:
             out.append(viol('C07', i, 'accepted', 'confirmation of %d by %d accepted: payment %r price %r allocation %d confirmed %d' % (n, u, c.pay, price, alloc, conf)))
-        if not ok and cond and u in h.addrs:
+        if not ok and cond and u in h.addrs and r['status'] != 'vm':
+            # (status vm: the caller does not hold what it tried to pay - the call never reached the contract)
             out.append(viol('C07', i, 'rejected', 'valid confirmation of %d by %d rejected: %s' % (n, u, r['msg'])))
         if ok and va is not None:
             if V(va, 'confirmed', u)[0] != conf + n:
